@@ -100,7 +100,7 @@ claim('C04', 'other',
       'rot_matrix and the flags are the values the arguments define; 128 concrete quarter / three-quarter circles between axis points (all flags, '
       'rotations 0/90/180/-90, two centres) get the exact centre, theta, delta, end points and intermediate axis points through the real constructor, '
       'also when built one after the other with colliding hashes; every Arc handed out by scaled/rotated/translated/reversed/cropped/split carries the '
-      'derived state of its own fields; Path.approximate_arcs_with_* replaces each arc of a multi-arc path in place by its own chain. '
+      'derived state of its own fields and answers like a freshly built one (point, derivative, bbox at both ends); Path.approximate_arcs_with_* replaces each arc of a multi-arc path in place by its own chain. '
       'Not decided: point(0)=start and point(1)=end for general arcs as numeric statements (acos/sqrt/clip), monotonicity and minimality up to rounding.',
       TRUST + ' Relations used: cos^2+sin^2=1, sqrt(u)^2=u; clip() is treated as an uninterpreted function in the same places on both sides. '
       'Feasibility lemma (F.6.5 geometry): raw delta > 0 iff sweep != large_arc.', 'DESIGN.md section 3 C04')
